@@ -35,6 +35,10 @@ UNIVERSE = [
     ("1000000000000000", "n1e15"), ("1e15", "n1e15"), ("1000000000000000.0", "n1e15"), ("100e13", "n1e15"),
     ("2000000000000000", "n2e15"), ("2.0E+15", "n2e15"), ("9007199254740991", "nmax"), ("9007199254740991.0", "nmax"),
     ("-1000000000000000", "n-1e15"), ("-1E15", "n-1e15"),
+    # neighbouring integers that share one double: different values, not duplicates; the same integer spelt as a double is one
+    ("9007199254740992", "n2p53"), ("9007199254740993", "n2p53+1"), ("9007199254740992.0", "n2p53"), ("18446744073709551614", "nu64-1"),
+    ("18446744073709551615", "nu64"), ("-9223372036854775807", "ni64+1"), ("-9223372036854775808", "ni64"), ("9223372036854775807", "ni64max"),
+    ("9223372036854775808", "n2p63"),
     # neighbouring doubles: different values, not duplicates
     ("0.3", "n0.3"), ("0.30000000000000004", "n0.3+"), ("0.1", "n0.1"), ("0.10000000000000002", "n0.1+"), ("3.3", "n3.3"),
     ("3.3000000000000003", "n3.3+"), ("0.1e0", "n0.1"), ("30e-2", "n0.3"),
